@@ -562,3 +562,11 @@ package multiplex
 //@   # (the parameter f is reassigned inside the loop: old(f.Seq) is the sequence number of the frame passed in)
 //@   loop 0 invariant onlyArrivals: forall s uint64 :: pending(sb, s) ==> acq(pending(sb, s)) || s == old(f.Seq)
 //@   loop 0 invariant kept: forall s uint64 :: acq(pending(sb, s)) || s == old(f.Seq) ==> pending(sb, s) || s < sb.nextRecvSeq
+
+// addConn (C01 "a healthy session keeps working"): the connection is stored before the count that makes
+// its id eligible for pickRandConn is published.
+//@ func (*switchboard).addConn
+//@   requires sb != nil && conn != nil
+//@   atcall AddUint32 requires storedBeforePublished: called("(*sync.Map).LoadOrStore")
+//@   flag noframe
+//@   loop 0 invariant live: sb != nil && conn != nil
